@@ -38,6 +38,14 @@ def _a(rng):
 
 
 def _triple(rng, roundtrip=False):
+    if not roundtrip and rng.random() < 0.12:
+        # a tiny first step (relative 1e-6 .. 3e-5): "equal couplings" means equal, a kernel that treats
+        # nearly equal couplings as equal does not compose
+        a0, a2 = _a(rng), _a(rng)
+        while abs(a2 / a0 - 1) < 0.05:
+            a2 = _a(rng)
+        a1 = a0 * (1.0 + float(rng.choice([-1.0, 1.0])) * float(np.exp(rng.uniform(np.log(1e-6), np.log(3e-5)))))
+        return a0, a1, a2
     while True:
         a0, a1, a2 = _a(rng), _a(rng), _a(rng)
         if roundtrip:
